@@ -27,6 +27,7 @@ fn main() {
         "chunker" => drivers::chunker::run(&a),
         "merkle" => drivers::merkle::run(&a),
         "shard" => drivers::shard::run(&a),
+        "atomicfs" => drivers::atomicfs::run(&a),
         "reconstruct" => drivers::reconstruct::run(&a),
         other => {
             eprintln!("unknown driver {other}");
